@@ -386,3 +386,178 @@ pub fn derive_input(d: &mut D) -> (String, Stats) {
     }
     (s, st)
 }
+
+// ------------------------------------------------------------------------------------------
+// arbitrary (not necessarily accepted) meta items and attribute lists for the run-time totality check
+
+const BIG: &[&str] = &[
+    "340282366920938463463374607431768211455", "340282366920938463463374607431768211456",
+    "999999999999999999999999999999999999999999999999999999999999", "-170141183460469231731687303715884105729",
+    "0xffffffffffffffffffffffffffffffffffffffff", "1e999999", "1e-999999", "0.000000000000000000000000000000000000000000000000001",
+    "18446744073709551616", "-9223372036854775809", "0b1111111111111111111111111111111111111111111111111111111111111111111", "1_000_000u8",
+];
+const VALS: &[&str] = &[
+    "1", "0", "255", "256", "-1", "\"s\"", "\"\"", "\"5\"", "\"-5\"", "\"true\"", "true", "false", "'c'", "'\\u{10FFFF}'", "1.5", "b\"x\"", "b'x'", "c\"z\"",
+    "x", "a::b", "::a", "x + 1", "[1, 2]", "[]", "(1, 2)", "|a| a", "f(1)", "\"a::b\"", "\"x +\"", "\"[1, 2\"", "r#\"raw\"#", "\"\\u{0}\"", "..", "1..2",
+    "&x", "!x", "-x", "x?", "if a { 1 } else { 2 }", "{ }", "m!()", "S { a: 1 }", "<T as U>::V", "\"where\"", "\"T: Clone\"", "\"pub(crate)\"", "\"fn(u8) -> u8\"",
+];
+
+pub fn arb_value(d: &mut D) -> String {
+    match d.below(8) {
+        0 => d.pick(BIG).to_string(),
+        1 => format!("\"{}\"", d.pick(BIG)),
+        _ => d.pick(VALS).to_string(),
+    }
+}
+
+/// One meta item named by one of `names` (or a random name), of arbitrary form.
+pub fn arb_item(d: &mut D, names: &[String], depth: usize) -> String {
+    let name = if !names.is_empty() && d.ratio(3, 4) {
+        d.pick(names).clone()
+    } else {
+        d.pick(&["zz", "a::b", "::c", "r#type", "self", "crate::x", "default", "skip"]).to_string()
+    };
+    match d.weighted(&[3, 6, if depth < 5 { 5 } else { 0 }, 1]) {
+        0 => name,
+        1 => format!("{} = {}", name, arb_value(d)),
+        2 => {
+            let n = d.below(4);
+            let mut items = vec![];
+            for _ in 0..n {
+                if d.ratio(1, 5) {
+                    items.push(arb_value(d));
+                } else {
+                    items.push(arb_item(d, names, depth + 1));
+                }
+            }
+            let (o, c) = *d.pick(&[("(", ")"), ("(", ")"), ("[", "]"), ("{", "}")]);
+            format!("{}{}{}{}{}", name, o, items.join(", "), if d.ratio(1, 6) { "," } else { "" }, c)
+        }
+        _ => {
+            // deep nesting
+            let k = d.range(8, 64);
+            let mut s = String::new();
+            for _ in 0..k {
+                s.push_str(&format!("{}(", name));
+            }
+            s.push_str("x = 1");
+            for _ in 0..k {
+                s.push(')');
+            }
+            s
+        }
+    }
+}
+
+/// The body of an attribute the receiver reads: a well-formed list, or something else entirely.
+pub fn arb_attr(d: &mut D, attr: &str, names: &[String]) -> String {
+    match d.weighted(&[12, 1, 1, 1, 3]) {
+        0 => {
+            let n = d.below(5);
+            let mut items = vec![];
+            for _ in 0..n {
+                if d.ratio(1, 10) {
+                    items.push(arb_value(d));
+                } else {
+                    items.push(arb_item(d, names, 0));
+                }
+            }
+            let sep = if d.ratio(1, 12) { " " } else { ", " };
+            format!("#[{}({})]", attr, items.join(sep))
+        }
+        1 => format!("#[{}]", attr),
+        2 => format!("#[{} = {}]", attr, arb_value(d)),
+        3 => format!("#[{}()]", attr),
+        _ => {
+            let s = token_soup(d, 0);
+            match d.below(3) {
+                0 => format!("#[{}({})]", attr, s),
+                1 => format!("#[{}[{}]]", attr, s),
+                _ => format!("#[{}{{{}}}]", attr, s),
+            }
+        }
+    }
+}
+
+fn arb_attrs(d: &mut D, attr_names: &[String], names: &[String]) -> String {
+    let mut s = String::new();
+    let n = d.weighted(&[3, 6, 3, 1]);
+    for _ in 0..n {
+        if !attr_names.is_empty() && d.ratio(3, 4) {
+            let a = d.pick(attr_names).clone();
+            s.push_str(&arb_attr(d, &a, names));
+        } else {
+            s.push_str(&other_attr(d));
+        }
+        s.push('\n');
+    }
+    s
+}
+
+/// A syntactically valid item of any shape whose attributes (on the item, its fields, variants and
+/// type parameters) are arbitrary.
+pub fn arb_element(d: &mut D, attr_names: &[String], names: &[String]) -> (String, Stats) {
+    let mut st = Stats::default();
+    let mut s = arb_attrs(d, attr_names, names);
+    s.push_str(vis(d));
+    let ng = d.below(3);
+    let mut gens = vec![];
+    for i in 0..ng {
+        gens.push(format!("{}{}{}", arb_attrs(d, attr_names, names), ["T", "U"][i], *d.pick(&["", ": Clone", ": 'static + Copy = u8"])));
+    }
+    if d.ratio(1, 4) {
+        gens.insert(0, "'a".to_string());
+    }
+    let g = if gens.is_empty() { String::new() } else { format!("<{}>", gens.join(", ")) };
+    let field = |d: &mut D, named: Option<usize>| -> String {
+        let a = arb_attrs(d, attr_names, names);
+        match named {
+            Some(j) => format!("{}{}f{}: {}", a, vis(d), j, d.pick(TYPES)),
+            None => format!("{}{}{}", a, vis(d), d.pick(TYPES)),
+        }
+    };
+    match d.weighted(&[5, 1, 3, 5, 1]) {
+        0 => {
+            st.shape = "struct_named".into();
+            let n = d.below(4);
+            let fs: Vec<String> = (0..n).map(|j| field(d, Some(j))).collect();
+            s.push_str(&format!("struct Foo{} {{\n{}\n}}", g, fs.join(",\n")));
+        }
+        1 => {
+            st.shape = "struct_unit".into();
+            s.push_str(&format!("struct Foo{};", g));
+        }
+        2 => {
+            st.shape = "struct_tuple".into();
+            let n = d.below(4);
+            let fs: Vec<String> = (0..n).map(|_| field(d, None)).collect();
+            s.push_str(&format!("struct Foo{}({});", g, fs.join(", ")));
+        }
+        3 => {
+            st.shape = "enum".into();
+            let n = d.below(5);
+            let mut vs = vec![];
+            for i in 0..n {
+                let a = arb_attrs(d, attr_names, names);
+                let body = match d.below(4) {
+                    0 => String::new(),
+                    1 => format!("({})", field(d, None)),
+                    2 => format!("({}, {})", field(d, None), field(d, None)),
+                    _ => {
+                        let k = d.below(3);
+                        let fs: Vec<String> = (0..k).map(|j| field(d, Some(j))).collect();
+                        format!(" {{ {} }}", fs.join(", "))
+                    }
+                };
+                let disc = if d.ratio(1, 6) { " = 1 + 1" } else { "" };
+                vs.push(format!("{}V{}{}{}", a, i, body, disc));
+            }
+            s.push_str(&format!("enum Foo{} {{\n{}\n}}", g, vs.join(",\n")));
+        }
+        _ => {
+            st.shape = "union".into();
+            s.push_str(&format!("union Foo{} {{ {}, {} }}", g, field(d, Some(0)), field(d, Some(1))));
+        }
+    }
+    (s, st)
+}
